@@ -105,6 +105,7 @@ def mk_trybranch(r):
         return ("agg", "adt:std::ops::ControlFlow::Break", (r,))
     return ("trybranch", r)
 RESOK = {"std::result::Result::ok"}
+OPTOK = {"std::option::Option::ok_or", "std::option::Option::ok_or_else"}
 UNWRAP_OR = {"std::result::Result::unwrap_or", "std::option::Option::unwrap_or"}
 WRAP = {
     "std::sync::Arc::new": "Arc",
@@ -168,6 +169,11 @@ def mk_vfield(base, variant, name):
         if variant == "Some":
             return mk_vfield(base[1], "Ok", name)
         return ("opaque", "resok-none")
+    if base[0] == "optok":
+        # `opt.ok_or_else(|| err)`: Ok(x) iff the option was Some(x); the error is the second operand
+        if variant == "Ok":
+            return mk_vfield(base[1], "Some", name)
+        return ("opaque", "optok-err")
     if base[0] == "agg" and base[1].startswith("adt:"):
         v = base[1].rsplit("::", 1)[-1]
         if v == variant:
@@ -238,6 +244,8 @@ def term_str(t, depth=0):
         return "try(%s)" % term_str(t[1], d)
     if k == "resok":
         return "ok(%s)" % term_str(t[1], d)
+    if k == "optok":
+        return "ok_or(%s)" % term_str(t[1], d)
     if k == "lockres":
         return "lock(%s)" % term_str(t[1], d)
     if k == "trylockres":
@@ -271,7 +279,7 @@ def subterms(t, seen=None):
     elif k in ("maperr", "mapped", "mapok"):
         yield from subterms(t[1])
         yield from subterms(t[2])
-    elif k in ("resok", "lockres", "trylockres", "trybranch"):
+    elif k in ("resok", "optok", "lockres", "trylockres", "trybranch"):
         yield from subterms(t[1])
     elif k == "over":
         yield from subterms(t[1])
@@ -668,6 +676,8 @@ class BodyProv:
             return ("maperr", self.operand_term(term["args"][0], bb, "term", stack), self.operand_term(term["args"][1], bb, "term", stack))
         if ck in RESOK and term["args"]:
             return ("resok", self.operand_term(term["args"][0], bb, "term", stack))
+        if ck in OPTOK and term["args"]:
+            return ("optok", self.operand_term(term["args"][0], bb, "term", stack))
         if ck in UNWRAP_OR and len(term["args"]) == 2:
             a0 = self.operand_term(term["args"][0], bb, "term", stack)
             v = "Ok" if "Result" in ck else "Some"
